@@ -1618,6 +1618,14 @@ def gen_c10_spec(rng: random.Random) -> Dict[str, Any]:
         elif task == "t_async" and rng.random() < 0.06:
             # a timeout label that is not a number: the execution fails like any other failing execution
             sends[-1]["labels"] = {"timeout": rng.choice(["soon", "", "1s"])}
+        if "labels" not in sends[-1] and rng.random() < 0.08:
+            # a parameter annotated with a plain class (no pydantic schema for it), a value sent for it
+            sends[-1]["task"] = "t_plain" if task != "t_sync" else "t_plain_sync"
+            sends[-1]["kwargs" if rng.random() < 0.5 else "args"] = rng.choice([{"obj": 5}, [5]])
+            if isinstance(sends[-1].get("args"), dict):
+                sends[-1]["args"] = [5]
+            if isinstance(sends[-1].get("kwargs"), list):
+                sends[-1]["kwargs"] = {"obj": "x"}
         if rng.random() < 0.08:
             sends[-1]["bad_arg"] = True  # the message cannot be encoded: the send fails before the broker is reached
         elif rng.random() < 0.12:
